@@ -1,9 +1,9 @@
 package main
 
 import (
-	"os"
 	"math/big"
 	"math/rand"
+	"os"
 	"strings"
 
 	"github.com/cockroachdb/apd/v3"
